@@ -43,7 +43,10 @@ NextFree == LET idx == {i \in 1..Cardinality(Objects) : content[Order[i]] = "non
             IF idx = {} THEN 0 ELSE CHOOSE i \in idx : \A j \in idx : i <= j
 
 \* "shared-heir": two roots, an heir type and its parent: the heir is complete on one root and not on the other
-PlanContents == IF Plan = "shared-heir" THEN <<"usesHeir", "heir", "usesHeir", "typeObj">> ELSE <<>>
+\* "shared-item": two roots that use one type object @item, whose text refers to @id; the roots define @id differently
+\* (a number on one, a string on the other: idNum and idStr are both registered under the name @id)
+PlanContents == IF Plan = "shared-heir" THEN <<"usesHeir", "heir", "usesHeir", "typeObj">>
+                ELSE IF Plan = "shared-item" THEN <<"usesItem", "item", "usesItem", "idNum", "idStr">> ELSE <<>>
 New(c) == /\ NextFree # 0
           /\ (Plan # "" => c = PlanContents[NextFree])
           /\ LET o == Order[NextFree] IN
@@ -51,8 +54,14 @@ New(c) == /\ NextFree # 0
              /\ Step([op |-> "New", obj |-> o, arg |-> c])
           /\ UNCHANGED <<regs, frozen>>
 
+\* under the plan "shared-item" the objects are created first, only the two roots are asked, and a root is given the
+\* shared type and one of the two definitions of @id (the plan is about what the roots answer, not about misuse)
+ItemPlan == Plan = "shared-item"
+ItemRoot(o) == content[o] = "usesItem"
+
 \* a call that compiles the object on first use
 Call(op, o) == /\ content[o] # "none"
+               /\ (ItemPlan => NextFree = 0 /\ ItemRoot(o))
                /\ op \in Ops
                /\ frozen' = frozen \cup {o}
                /\ Step([op |-> op, obj |-> o, arg |-> ""])
@@ -60,6 +69,8 @@ Call(op, o) == /\ content[o] # "none"
 
 \* AddType(o, "@t", t): only meaningful before o is compiled; the library loads both
 AddType(o, t) == /\ Registers
+                 /\ (ItemPlan => /\ NextFree = 0 /\ ItemRoot(o) /\ ~ItemRoot(t)
+                                 /\ ~(content[t] \in {"idNum", "idStr"} /\ \E x \in regs[o] : content[x] \in {"idNum", "idStr"}))
                  /\ content[o] # "none" /\ content[t] # "none" /\ o # t
                  /\ o \notin frozen
                  /\ (Sharing \/ \A x \in Objects : t \notin regs[x])      \* without Sharing one object is the type of at most one root
